@@ -1140,7 +1140,7 @@ impl Scenario for C19 {
     }
 
     fn rule(&self) -> String {
-        "Static: Send and Sync of the 19 deterministic generator types, the 3 cores, JitterRng<fn() -> u64>, evaluated at compile time by inherent-const shadowing. Dynamic, per run: 2..6 generator instances of mixed types (deterministic generators through every seeding route with zero seeds / seed_from_u64(0) over-weighted, duplicates of the same type and seed, JitterRng instances each over its own scripted clock), each with its own history of next_u32/next_u64/fill_bytes/jump/clone (JitterRng instances sometimes start with test_timer on their own clock), and 1..4 worker threads. The seeded scheduler repeatedly picks (instance, thread): ownership of the instance is MOVED to that OS thread, which performs exactly one operation and hands the baton back (never more than one runnable thread, so the interleaving replays exactly); schedule styles: round robin, uniform, bursts; thread migrations; disturbances between steps (unrelated generators created/seeded/dropped incl. the zero-seed remap and SplitMix64 expansion, block generators run across a refill, JitterRng::new() which touches the process-wide JITTER_ROUNDS cache). The interleaved run executes in its own fresh process; every instance is also run ALONE in its own fresh process, and all instances under sequential and reverse-sequential composition in one further process each; per-instance output digests must be identical in all of them. distinct_nontrivial = distinct (instance, thread) sequences with at least one interleave and one migration (plus one signature per type of the static table). Further: block generators also take part as their public CORE driven through one scratch block shared by all cores of that type (scratch family: 2..4 such cores, several blocks each, interleaved); JitterRng instances are cloned inside schedules; a disturbance clones/clone_froms/formats an unrelated JitterRng; duplicates of a JitterRng instance get a private clock 1..64 ticks ahead of / behind the original's; one JitterRng instance in three counts in steps of q; one run in ten consists of JitterRng instances only; (nested) the same operations of one JitterRng run once on their own and once each from inside a timer reading of another JitterRng's collection on the same thread. Schedules run under a logger that accepts every record one time in four; census family: one JitterRng brings the process to 2^16 - k collections (k < 40) in one bulk request, a second one then makes 45..60.".into()
+        "Static: Send and Sync of the 19 deterministic generator types, the 3 cores, JitterRng<fn() -> u64>, evaluated at compile time by inherent-const shadowing. Dynamic, per run: 2..6 generator instances of mixed types (deterministic generators through every seeding route with zero seeds / seed_from_u64(0) over-weighted, duplicates of the same type and seed, JitterRng instances each over its own scripted clock), each with its own history of next_u32/next_u64/fill_bytes/jump/clone (JitterRng instances sometimes start with test_timer on their own clock), and 1..4 worker threads. The seeded scheduler repeatedly picks (instance, thread): ownership of the instance is MOVED to that OS thread, which performs exactly one operation and hands the baton back (never more than one runnable thread, so the interleaving replays exactly); schedule styles: round robin, uniform, bursts; thread migrations; disturbances between steps (unrelated generators created/seeded/dropped incl. the zero-seed remap and SplitMix64 expansion, block generators run across a refill, JitterRng::new() which touches the process-wide JITTER_ROUNDS cache). The interleaved run executes in its own fresh process; every instance is also run ALONE in its own fresh process, and all instances under sequential and reverse-sequential composition in one further process each; per-instance output digests must be identical in all of them. distinct_nontrivial = distinct (instance, thread) sequences with at least one interleave and one migration (plus one signature per type of the static table). Further: block generators also take part as their public CORE driven through one scratch block shared by all cores of that type (scratch family: 2..4 such cores, several blocks each, interleaved); JitterRng instances are cloned inside schedules; a disturbance clones/clone_froms/formats an unrelated JitterRng; duplicates of a JitterRng instance get a private clock 1..64 ticks ahead of / behind the original's; one JitterRng instance in three counts in steps of q; one run in ten consists of JitterRng instances only; (nested) the same operations of one JitterRng run once on their own and once each from inside a timer reading of another JitterRng's collection on the same thread. Schedules run under a logger that accepts every record one time in four; census family: one JitterRng brings the process to 2^16 - k collections (k < 40) in one bulk request, a second one then makes 45..60. The real-clock constructor JitterRng::new() also takes part as an instance whose only output is whether it succeeded (family failed_calibration: next to a scripted timer that fails its timer test); a difference there must repeat twice more in fresh processes.".into()
     }
     fn assumptions(&self) -> Vec<String> {
         vec![
